@@ -134,14 +134,15 @@ def _init_worker():
 
 def _chunk(args):
     prop, tier, seed, start, count, want_events = args
-    faulthandler.dump_traceback_later(600, exit=True)
     try:
         sim = get_sim(prop)
+        hard = getattr(sim, "RUN_TIMEOUT", 60) + 240      # last resort if the SIGALRM watchdog cannot interrupt (a C call that never returns)
         out = {
             "start": start, "runs": 0, "events": 0, "nontrivial": 0, "sigs": set(), "probes": Counter(), "faults": Counter(),
             "notes": Counter(), "failures": [], "digest": hashlib.sha256(), "samples": [], "kernel_entries": 0, "error": None,
         }
         for idx in range(start, start + count):
+            faulthandler.dump_traceback_later(hard, exit=True)
             st = run_generated(sim, seed, idx, tier)
             out["runs"] += 1
             out["events"] += st.n_events
